@@ -16,7 +16,7 @@ import mir
 import rustsrc
 from mir import MirError
 from ty import INT_TYPES, Ty, parse_type
-from values import (UNIT, EnumInfo, SymError, VArr, VClosure, VEnum, VFn, VIter, VMap, VOpaque, VPoison, VRef, VSeq, VStr, VStruct, as_int,
+from values import (UNIT, EnumInfo, SymError, VArr, VClosure, VCoroutine, VEnum, VFn, VIter, VMap, VOpaque, VPoison, VRef, VSeq, VStr, VStruct, as_int,
                     bv, is_z3, merge, simp, vmap)
 
 sys.setrecursionlimit(20000)
@@ -409,11 +409,22 @@ class Engine:
                 return self.read_path(v.f[p], rest)
             if isinstance(v, VClosure):
                 return self.read_path(v.caps[p], rest)
+            if isinstance(v, VCoroutine):
+                return self.read_path(v.caps[p], rest)
             if isinstance(v, VEnum) and len(v.pay) == 1:
                 # single-variant view (e.g. after downcast elided)
                 return self.read_path(list(v.pay.values())[0][p], rest)
             raise SymError(f"field projection .{p} on {type(v).__name__}: {v!r}")
         tag = p[0]
+        if tag == "v" and isinstance(v, VCoroutine):
+            saved = v.variants.get(p[1])
+            if saved is None:
+                raise SymError(f"read of coroutine state {p[1]} before it was written")
+            if not rest:
+                return VStruct(saved)
+            if not isinstance(rest[0], int) or rest[0] >= len(saved) or saved[rest[0]] is None:
+                raise SymError(f"read of unwritten coroutine slot {p[1]}.{rest[0]}")
+            return self.read_path(saved[rest[0]], rest[1:])
         if tag == "v":
             if not isinstance(v, VEnum):
                 raise SymError(f"downcast on non-enum {v!r}")
@@ -477,10 +488,24 @@ class Engine:
                 f = list(v.caps)
                 f[p] = self.write_path(f[p], rest, new)
                 return VClosure(v.name, f)
+            if isinstance(v, VCoroutine):
+                f = list(v.caps)
+                f[p] = self.write_path(f[p], rest, new)
+                return VCoroutine(v.name, v.creator, f, v.idx, v.variants)
             if v is None:
                 raise SymError("field write into uninitialised aggregate (deaggregated init not supported)")
             raise SymError(f"field write .{p} on {type(v).__name__}")
         tag = p[0]
+        if tag == "v" and isinstance(v, VCoroutine):
+            if not rest or not isinstance(rest[0], int):
+                raise SymError("whole-state write into a coroutine")
+            saved = list(v.variants.get(p[1], ()))
+            while len(saved) <= rest[0]:
+                saved.append(None)
+            saved[rest[0]] = self.write_path(saved[rest[0]], rest[1:], new) if rest[1:] else new
+            vs = dict(v.variants)
+            vs[p[1]] = tuple(saved)
+            return VCoroutine(v.name, v.creator, v.caps, v.idx, vs)
         if tag == "v":
             if not isinstance(v, VEnum):
                 raise SymError("downcast write on non-enum")
@@ -528,7 +553,7 @@ class Engine:
                 cur = vmap(v.val, lambda a: z3.Select(a, k))
                 upd = self.write_path(cur, rest, new)
                 newval = _zip_store(v.val, upd, k)
-                return VMap(v.ksort, v.present, newval, v.count, v.cap)
+                return VMap(v.ksort, v.present, newval, v.count, v.cap, v.enum)
         raise SymError(f"unsupported write path element {p!r} on {type(v).__name__}")
 
     def load(self, st, ref):
@@ -597,8 +622,10 @@ class Engine:
                 # need the enum's variant index: look at the value if present, else the declared type
                 cur = self.read_path(st.mem.get(root), path) if root in st.mem else None
                 name = pr[1]
-                if isinstance(cur, VEnum):
-                    vi = cur.info.index(name) if not name.startswith("variant#") else int(name[len("variant#"):])
+                if isinstance(cur, VCoroutine) or name.startswith("variant#"):
+                    vi = int(name[len("variant#"):])
+                elif isinstance(cur, VEnum):
+                    vi = cur.info.index(name)
                 else:
                     pt = self.place_type(body, mir.Place(place.local, place.proj[:n]))
                     vi = self.enum_info(pt.name).index(name)
@@ -864,6 +891,12 @@ class Engine:
                     return bv(len(tgt.elems), 64)
                 if isinstance(tgt, VStr):
                     return self.str_len(tgt)
+                from values import VBlob, VBytes
+                if isinstance(tgt, VBlob):
+                    return tgt.len
+                if isinstance(tgt, VBytes):
+                    import summaries_bytes
+                    return summaries_bytes.bytes_len(list(tgt.chunks))
                 raise SymError("PtrMetadata of " + repr(tgt))
         if k == "len":
             v = self.read_place(st, frame, body, a["place"])
@@ -874,6 +907,9 @@ class Engine:
             raise SymError("Len of " + repr(v))
         if k == "discriminant":
             v = self.read_place(st, frame, body, a["place"])
+            if isinstance(v, VCoroutine):
+                w = self.int_info(dest_ty)[0] if self.int_info(dest_ty) else 32
+                return simp(z3.ZeroExt(w - 32, v.idx)) if w > 32 else simp(z3.Extract(w - 1, 0, v.idx))
             if not isinstance(v, VEnum):
                 raise SymError(f"discriminant of non-enum {v!r}")
             w = self.int_info(dest_ty)[0] if self.int_info(dest_ty) else 64
@@ -893,7 +929,10 @@ class Engine:
                 n = as_int(self.const(a["count"].replace("const ", ""), body))
             return VArr([x] * n)
         if k == "closure":
-            return VClosure(a["name"], [self.operand(st, frame, body, o) for _, o in a["fields"]])
+            caps = [self.operand(st, frame, body, o) for _, o in a["fields"]]
+            if a["name"].startswith(("{coroutine@", "{async")):
+                return VCoroutine(a["name"], body.name, caps, bv(0, 32), {})
+            return VClosure(a["name"], caps)
         if k == "adt":
             return self.adt_aggregate(st, frame, body, rv, dest_ty)
         raise SymError(f"unsupported rvalue kind {k}")
@@ -1245,6 +1284,9 @@ class Engine:
                     cur = self.read_place(s, frame, body, stmt.place)
                 except SymError:
                     pass
+                if isinstance(cur, VCoroutine):
+                    self.write_place(s, frame, body, stmt.place, VCoroutine(cur.name, cur.creator, cur.caps, bv(stmt.rv, 32), cur.variants))
+                    continue
                 info = self.enum_info(self.place_type(body, stmt.place).name)
                 vi = info.discrs.index(stmt.rv)
                 pay = dict(cur.pay) if isinstance(cur, VEnum) else {}
@@ -1293,7 +1335,7 @@ class Engine:
                     c = simp(z3.Not(z3.Or(*conds))) if conds else z3.BoolVal(True)
                     if not z3.is_false(c):
                         out.append((t.a["otherwise"], c))
-                return out
+                return self.prune(s, out)
             if not z3.is_bv(v):
                 raise SymError(f"switch on {v!r} in {_short(body.name)} {bb}")
             w = v.size()
@@ -1307,12 +1349,30 @@ class Engine:
                 c = simp(z3.Not(z3.Or(*conds))) if conds else z3.BoolVal(True)
                 if not z3.is_false(c):
                     out.append((t.a["otherwise"], c))
+            out = self.prune(s, out)
             if len(out) == 1:
                 return [(out[0][0], None if z3.is_true(out[0][1]) else out[0][1])]
             return out
         if k == "call":
             return self.exec_call(s, frame, body, bb, t)
         raise SymError("unsupported terminator " + t.text)
+
+    def prune(self, s, out):
+        """optional solver-assisted pruning of infeasible branches under the harness hypotheses (enabled per check: `path_hyps`)"""
+        hyps = getattr(self, "path_hyps", None)
+        if not hyps or len(out) < 2:
+            return out
+        keep = []
+        for (tgt, c) in out:
+            sv = z3.Solver()
+            sv.set("timeout", 2000)
+            sv.add(*hyps)
+            sv.add(*self.assumptions)
+            sv.add(s.pc, c)
+            if sv.check() == z3.unsat:
+                continue
+            keep.append((tgt, c))
+        return keep or out
 
     def exec_call(self, s, frame, body, bb, t):
         callee = t.a["callee"]
